@@ -47,6 +47,9 @@ def layouts(text, seed, tier):
             if tier != 'quick':
                 hs.append([['plain', text], ['apply', R['R'], 0, L, True], ['apply', R['B'], s, e, True]])
                 hs.append([['plain', text], ['apply', R['R'], s, e, True], ['apply', R['R'], 0, L, True]])
+    if L >= 3:
+        hs.append([['plain', text], ['apply', R['R'], 0, L - 2, True], ['apply', R['W'], 0, L - 1, True], ['apply', R['U'], 0, L - 2, True]])
+        hs.append([['plain', text], ['apply', R['R'], 0, L, True], ['apply', R['B'], 1, L, True], ['apply', R['R'], 2, L, True]])
     return hs
 
 
